@@ -565,3 +565,36 @@ PLANS["C16"] = {
     ],
 }
 CHECKS["C16"] = _core
+
+
+# ------------------------------------------------------------------------------------------ C20 hook ingestion
+def ingest_consts(presets=_fn.ING_PRESETS, shapes=_fn.ING_SHAPES, layouts=_fn.ING_LAYOUTS, locs=_fn.ING_LOCS):
+    return {"Presets": list(presets), "ValidPresets": ["agent-v1", "claude"], "Shapes": list(shapes),
+            "Layouts": list(layouts), "Locations": list(locs), "Kinds": ["ai", "human"], "Mode": "gen"}
+
+
+PLANS["C20"] = {
+    "clauses": ["C20_ExitZero", "C20_NoPanic", "C20_Readable", "C20_OnlyContaining"], "level": "fault_enumeration",
+    "module": "Ingest.tla", "const_keys": ["Presets", "ValidPresets", "Shapes", "Layouts", "Locations", "Kinds", "Mode"],
+    "executor": _fn.execute_ingest, "tagger": _fn.ingest_tags, "end_event": {"ev": "reset", "run": "end"},
+    "chunk": 3000, "expect_actions": {"any": ["Hook"]},
+    "rule": "the grid preset x payload shape x repository layout (malformed payloads) and preset x layout x file "
+            "location x checkpoint kind (well-formed payloads) is enumerated by TLC and every point is executed on "
+            "the real binary in a fresh workspace; distinct_nontrivial counts grid points",
+    "assumptions": [
+        "TLC 1.8 and the CommunityModules evaluate spec/Ingest.tla correctly",
+        "a panic is recognised by its message on stderr; the working logs are the checkpoints.jsonl files under "
+        "<repo>/.git/ai",
+        "well-formed payloads are built for the agent-v1 and claude schemas only; the other presets see the "
+        "malformed shapes (each has its own parser) but no valid payload of their own",
+    ],
+    "quick": [
+        dict(name="grid", consts=ingest_consts(), invariants=["G_ExitZero", "G_OnlyContaining"],
+             budget=100000, variants=[("-", "-")], per_tag=1),
+    ],
+    "thorough": [
+        dict(name="grid", consts=ingest_consts(), invariants=["G_ExitZero", "G_OnlyContaining"], budget=100000,
+             variants=[("-", "-")], per_tag=1, timeout=2400),
+    ],
+}
+CHECKS["C20"] = _core
